@@ -52,6 +52,14 @@ CPFramesUsed == IF Full THEN CPFrames ELSE {f \in CPFrames : f.a.cty \in {"contr
 DeclFamily(insts) ==
     UNION {{L(i.label \o "@" \o f.a.cty \o "." \o ToString(f.hp) \o "of" \o ToString(Len(f.c[2]) + 1), ToFile(Plug(f, i.tree), "SUP")) : f \in CPFramesUsed} : i \in insts}
 
+\* a declaration between other function-like members (with and without body): no member may hide another
+Bodyless == FnDecl("function", "declaredOnly", VisAttr("public") \o MutAttr("view") \o <<[kind |-> "virtual"]>>, NoParams, <<>>, FALSE, <<>>)
+Bodied   == FnDecl("function", "helper", VisAttr("internal"), NoParams, <<>>, TRUE, <<>>)
+BetweenFamily(insts) ==
+    UNION {{L(i.label \o "@after-bodyless", InFile(<<N("SUP.ContractDefinition", [cty |-> "abstract", name |-> "Mixed", bases |-> <<>>], <<<<>>, <<Bodyless, i.tree, Bodied>>>>)>>)),
+            L(i.label \o "@before-bodyless", InFile(<<N("SUP.ContractDefinition", [cty |-> "abstract", name |-> "Mixed", bases |-> <<>>], <<<<>>, <<Bodied, i.tree, Bodyless>>>>)>>))}
+           : i \in insts}
+
 OrderFamily ==
     LET n == IF Full THEN 3 ELSE 2 IN
     UNION {{L("order:" \o TagLabel(tags) \o "#" \o ToString(Len(nb)), InFile(nb))
@@ -64,7 +72,7 @@ C07Inst == Erc20Inst \cup DivMulInst
 
 Files ==
     CASE Prop = "C05" -> ExprFamily(C05Inst) \cup StmtFamily(C05Inst)
-      [] Prop = "C06" -> DeclFamily(FnProduct \cup VarProduct) \cup OrderFamily
+      [] Prop = "C06" -> DeclFamily(FnProduct \cup VarProduct) \cup OrderFamily \cup BetweenFamily(FnProduct \cup {v \in VarProduct : Full})
       [] Prop = "C07" -> ExprFamily(C07Inst) \cup DeclFamily(DestructShapes)
                          \cup {L(i.label, i.tree) : i \in PragmaFiles}
                          \cup StmtFamily({I("destruct:position", "S", DestructStmt)})
